@@ -49,3 +49,107 @@ def check_C03(ctx):
              'sign/relative-magnitude/alias combination of the mpz functions is executed on the real library and each recorded call is validated '
              'against MPIR.tla; distinct = distinct (function, inputs, outputs), non-trivial = some operand of at least two limbs',
         explanation='exhaustive small-base model of aors.h plus trace validation of the real kernels')
+
+
+# ------------------------------------------------------------------------------------------------ helpers
+def probe(ctx, build):
+    from verif import sh
+    rc, out = sh([os.path.join(build, 'verif-probe')], timeout=60)
+    if rc != 0: raise Machinery('probe failed: ' + out[-500:])
+    th = {}
+    for l in out.splitlines():
+        p = l.split()
+        if len(p) == 2: th[p[0]] = int(p[1])
+    return th
+
+
+def mul_consts(th, **over):
+    c = dict(KARA=th['MUL_KARATSUBA_THRESHOLD'], TOOM3=th['MUL_TOOM3_THRESHOLD'], TOOM4=th['MUL_TOOM4_THRESHOLD'],
+             TOOM8H=th['MUL_TOOM8H_THRESHOLD'], FFTFULL=th['MUL_FFT_FULL_THRESHOLD'], MAXUN=th['MUL_BASECASE_MAX_UN'],
+             SQRBASE=th['SQR_BASECASE_THRESHOLD'], SQRKARA=th['SQR_KARATSUBA_THRESHOLD'], SQRTOOM3=th['SQR_TOOM3_THRESHOLD'],
+             SQRTOOM4=th['SQR_TOOM4_THRESHOLD'], SQRTOOM8=th['SQR_TOOM8_THRESHOLD'], SQRFFT=th['SQR_FFT_FULL_THRESHOLD'],
+             KARALIMIT=th['MUL_KARATSUBA_THRESHOLD_LIMIT'], TOOM3LIMIT=th['MUL_TOOM3_THRESHOLD_LIMIT'],
+             N=1000, LO=1, Mode='"region"', BV=2, EMIT='FALSE')
+    c.update(over)
+    return c
+
+
+def fft_consts(th, **over):
+    c = {}
+    names = ['T61', 'T62', 'T71', 'T72', 'T81', 'T82', 'T91', 'T92', 'TA1', 'TA2']
+    for i in range(5):
+        c[names[2 * i]] = th[f'FFT_TAB_{i}_1']; c[names[2 * i + 1]] = th[f'FFT_TAB_{i}_2']
+    c.update(FFTFULL=th['MUL_FFT_FULL_THRESHOLD'], N1LO=th['MUL_FFT_FULL_THRESHOLD'], N1HI=5200, STEP=1, EMIT='FALSE')
+    c.update(over)
+    return c
+
+
+def parse_tuples(lines, tag):
+    """<<"TAG", 1, 2, "x">> lines printed by TLC -> list of lists"""
+    out = []
+    for l in lines:
+        if tag not in l: continue
+        body = l.strip().strip('<>').replace('"', '')
+        parts = [p.strip() for p in body.split(',')]
+        if parts and parts[0] == tag: out.append(parts[1:])
+    return out
+
+
+# ------------------------------------------------------------------------------------------------ C01
+def check_C01(ctx):
+    import random
+    q = ctx.tier == 'quick'
+    b = ctx.build('default')
+    th = probe(ctx, b)
+    rng = random.Random(ctx.seed)
+    # R2 (a) region run with the thresholds of the tree under test; also emits the shapes next to every boundary (R3)
+    N = 700 if q else 1300
+    r = ctx.tlc_model('MulDispatch', cfg_text=cfg(consts=mul_consts(th, N=N, EMIT='TRUE')), name='MulDispatch-region', collect='<<"SHAPE"')
+    ctx.model_must_hold(r, what='(callee preconditions / scratch sizes of the mpn_mul dispatch)')
+    shapes = parse_tuples(['<<"SHAPE"' + x for x in r.get('collected', [])], 'SHAPE')
+    if not q:
+        r2 = ctx.tlc_model('MulDispatch', cfg_text=cfg(consts=mul_consts(th, N=2 * th['MUL_FFT_FULL_THRESHOLD'] + 64, LO=N + 1)), name='MulDispatch-region-large', timeout=3000)
+        ctx.model_must_hold(r2)
+    # R2 (b) value runs: fallback loop and chunked basecase, exhaustive at limb base 2
+    for nm, kara, n in (('value-kara2', 2, 8), ('value-kara3', 3, 9 if q else 10)):
+        rv = ctx.tlc_model('MulDispatch', cfg_text=cfg(consts=mul_consts(th, KARA=kara, TOOM3=100, TOOM4=200, TOOM8H=300, FFTFULL=400, MAXUN=3,
+                           N=n, LO=2, Mode='"value"')), name='MulDispatch-' + nm)
+        ctx.model_must_hold(rv, what='(fallback loop / chunked basecase value run)')
+    # R2 FFT parameter selection, exhaustive over a range, then a sparse grid with EMIT for the replay set
+    rf = ctx.tlc_model('FFTParams', cfg_text=cfg(consts=fft_consts(th, N1HI=th['MUL_FFT_FULL_THRESHOLD'] + (1500 if q else 5500))), name='FFTParams-dense', timeout=3000)
+    ctx.model_must_hold(rf, what='(FFT parameters let coefficients wrap or do not fit the transform)')
+    rg = ctx.tlc_model('FFTParams', cfg_text=cfg(consts=fft_consts(th, N1LO=th['MUL_FFT_FULL_THRESHOLD'] // 3 * 2, N1HI=60000 if q else 300000, STEP=211 if q else 397, EMIT='TRUE')),
+                       name='FFTParams-grid', collect='<<"FFTP"', timeout=3000)
+    ctx.model_must_hold(rg)
+    params = parse_tuples(['<<"FFTP"' + x for x in rg.get('collected', [])], 'FFTP')
+    bylabel = {}
+    for n1, n2, d, w, k in params:
+        bylabel.setdefault((int(d), int(w), k), []).append((int(n1), int(n2)))
+    fftlines = []
+    cap = 45000 if q else 320000
+    for (d, w, k), ws in sorted(bylabel.items()):
+        ws = sorted(ws, key=lambda t: t[0] + t[1])
+        picks = [ws[0]] + ([ws[len(ws) // 2]] if len(ws) > 2 and not q else [])
+        for n1, n2 in picks:
+            if n1 + n2 <= cap: fftlines.append(f'{n1} {n2} {d} {w} {k}')
+    ctx.notes.append(f'FFT parameter pairs found by the model: {len(bylabel)}; replayed: {len(fftlines)} (size cap {cap} limbs)')
+    # R3: replay
+    if q: shapes = [s for s in shapes if rng.random() < 0.22]
+    sf = os.path.join(ctx.scratch, 'shapes.lst'); open(sf, 'w').write(''.join(f'{s[2]} {s[0]} {s[1]}\n' for s in shapes))
+    ff = os.path.join(ctx.scratch, 'fft.lst'); open(ff, 'w').write('\n'.join(fftlines) + '\n')
+    paths = ctx.run_driver(b, 'c01_shapes', shards=48, extra=f'file={sf}', timeout=1500)
+    paths += ctx.run_driver(b, 'c01_mul1', shards=4, timeout=600)
+    paths += ctx.run_driver(b, 'c01_mpz', shards=8, timeout=900)
+    paths += ctx.run_driver(b, 'c01_fft', shards=min(16, max(1, len(fftlines))), extra=f'fft={ff}', timeout=1500)
+    ctx.validate(paths)
+    pp = ctx.run_driver(b, 'c01_mul1', shards=1, extra='pure', timeout=300) + ctx.run_driver(b, 'c01_mpz', shards=1, extra='pure', timeout=300)
+    n0 = ctx.trace_stats['accepted_executions']; ctx.validate(pp, pure=True)
+    ctx.notes.append(f'pure-mode (no Java) validation: {ctx.trace_stats["accepted_executions"] - n0} executions')
+    return ctx.finish('model_checking',
+        rule='R2: MulDispatch region run = every 1<=vn<=un<=N with the tree\'s thresholds (callee ASSERT domains, scratch); value runs = every operand at limb base 2 '
+             'through the fallback loop and the chunked basecase; FFTParams = every (n1,n2) in range. R3/R1: every shape the model marks as adjacent to a dispatch boundary '
+             '(quick: seeded 22% sample) is multiplied on the real library with all-ones and a second content kind, through mpn_mul and through the selected internal '
+             'routine directly; every (depth,w) the FFT selection can produce is entered directly; each product is validated by TLC against MPIR.tla. '
+             'distinct = distinct (function, operands, result); non-trivial = at least two limbs',
+        explanation='dispatch/parameter models checked with the constants of the tree under test + trace validation of real products',
+        extra_cov=dict(boundary_shapes_replayed=len(shapes), fft_parameter_pairs=len(bylabel), thresholds={k: th[k] for k in th if k.startswith('MUL_') or k.startswith('SQR_')}))
